@@ -543,6 +543,122 @@ def _chunks(xs, n):
     return [xs[i:i + k] for i in range(0, len(xs), k)]
 
 
+# ------------------------------------------------------------ declshapes
+
+DECL_HEADS = ('declare-const', 'declare-fun', 'define-fun', 'define-funs-rec',
+              'define-fun-rec', 'declare-datatype', 'declare-datatypes',
+              'declare-sort', 'define-sort')
+
+
+def _variants(tree, edits):
+    """All trees obtained from the nested-list ``tree`` by at most ``edits``
+    edits; an edit deletes one child or replaces a non-leaf child by ()."""
+    seen = set()
+    out = []
+
+    def key(t):
+        return repr(t)
+
+    def single(t):
+        res = []
+        if isinstance(t, list):
+            for i, c in enumerate(t):
+                res.append(t[:i] + t[i + 1:])                 # delete child i
+                if isinstance(c, list) and c:
+                    res.append(t[:i] + [[]] + t[i + 1:])      # child i -> ()
+                for sub in single(c):
+                    res.append(t[:i] + [sub] + t[i + 1:])
+        return res
+
+    frontier = [tree]
+    for _ in range(edits):
+        nxt = []
+        for t in frontier:
+            for v in single(t):
+                k = key(v)
+                if k not in seen:
+                    seen.add(k)
+                    out.append(v)
+                    nxt.append(v)
+        frontier = nxt
+    return out
+
+
+def run_declshapes(tier):
+    """Auxiliary (concrete): every declaration command of the corpus and of
+    the typed scripts with up to two nodes deleted / emptied - the shapes
+    node-wise reduction drives declarations through - goes through the
+    main-process functions without an exception."""
+    import time
+    from harness import c15, c16
+    from ddsmt import nodeio, mutators, smtlib, nodes
+    from ddsmt.nodes import Node
+    t0 = time.time()
+    _pristine_args()
+    decls = {}
+    texts = list(c15.CORPUS)
+    for fname in ('dt', 'binders', 'deffun', 'arrays', 'strings', 'core',
+                  'fp_fp_0', 'concat_1_1'):
+        ex = c15.typed_script(fname, (3, 5, 2))
+        if ex is not None:
+            texts.append(nodeio.write_smtlib_to_str(ex))
+    for t in texts:
+        for e in nodeio.parse_smtlib(t):
+            if e.has_ident() and e.get_ident() in DECL_HEADS:
+                decls.setdefault(e.__str__(), T.to_list(e))
+    n = 0
+    bad = None
+    edits = 2
+    for text, tree in decls.items():
+        big = len(text) > 90
+        for v in _variants(tree, 2 if (big and tier == "quick") else (3 if not big else 2)):
+            if not isinstance(v, list):
+                continue
+            n += 1
+
+            def mk(t):
+                return Node(*[mk(c) for c in t]) if isinstance(t, list) \
+                    else Node(t)
+            node = mk(v) if v else Node()
+            exprs = [node, Node('assert', Node('=', 'x', 'x'))]
+            what = 'auto_detect_theories'
+            try:
+                _pristine_args()
+                mutators.auto_detect_theories(exprs)
+                what = 'collect_information'
+                smtlib.collect_information(exprs)
+                what = 'count/render'
+                nodes.count_nodes(exprs)
+                nodes.count_exprs(exprs)
+                nodeio.write_smtlib_to_str(exprs)
+            except Exception as e:
+                if bad is None:
+                    bad = ({'command': node.__str__()},
+                           f'{what} raised {type(e).__name__}: {e} on '
+                           f'{node.__str__()!r} (reduced from {text[:80]!r})')
+    return {'status': 'VIOLATED' if bad else 'CONFIRMED',
+            'cex': bad[0] if bad else None,
+            'exc': {'type': 'Violation', 'msg': bad[1]} if bad else None,
+            'paths': n, 'paths_ok': n, 'solver_checks': 0,
+            'solver_seconds': 0.0,
+            'samples': [{'declaration_commands': len(decls)}],
+            'wall_s': round(time.time() - t0, 2),
+            'note': 'concrete enumeration (auxiliary)'}
+
+
+def declshape_one(text):
+    from ddsmt import nodeio, mutators, smtlib
+    _pristine_args()
+    exprs = list(nodeio.parse_smtlib(text + '(assert (= x x))'))
+    try:
+        mutators.auto_detect_theories(exprs)
+        smtlib.collect_information(exprs)
+        nodeio.write_smtlib_to_str(exprs)
+    except Exception as e:
+        return f'{type(e).__name__}: {e} on {text!r}'
+    return None
+
+
 # -------------------------------------------------------------- onestep
 
 def run_onestep(fnames, tier, want=None):
@@ -675,6 +791,8 @@ def partitions(tier):
     b = bounds(tier)
     bud = 160 if tier == 'quick' else 850
     parts = []
+    parts.append({'name': 'declshapes', 'kind': 'native',
+                  'run': (lambda: run_declshapes(tier)), 'budget_s': 600})
     from harness import c16
     fams = list(c16.FAMS)
     for k in range(8):
@@ -755,6 +873,8 @@ def replay(part, cex):
         if part.startswith('isolate'):
             return isolate_body(cex['site'], cex['exc_i'], cex['victim_i'],
                                 cex['glob'], part.split('_')[1])
+        if part == 'declshapes':
+            return declshape_one(cex['command'])
         if part.startswith('onestep'):
             r = run_onestep([cex['family']], 'thorough',
                             (cex['family'], list(cex['nums'])))
